@@ -182,6 +182,7 @@ def run(ck):
                       "%s mixes a %s first with a %s end sentinel" % (c, fdir, ldir), key="%s|mixed-range" % strip_tmpl(f.name).split("::")[-1])
             else:
                 ck.ob("C17-O1", sitestr(f, n), None, "%s: `last` = %s is not a recognised sentinel" % (c, describe(last)))
+    fixed_width_position_masks(ck, F)
     v_ = None
     if n_ranges < 4:
         # a position helper rewritten without the range algorithms (index loops): decide it by running it (engine/conc.py) on every handler list of up to
@@ -581,3 +582,37 @@ def cached_position(ck, fn, m):
           "%s inserts at the position kept in %s, which all %d list-changing functions write: whether they keep it equal to the block length is not decided here" % (m, fld.split("::")[-1], n_mut),
           key="%s|cached-position" % m)
     return True
+
+
+
+def fixed_width_position_masks(ck, F):
+    """C17-O1 (any list length): a fixed-width integer used as a set of list positions - one bit per handler, built by shifting once per element of the
+    handler list - stands for the first 32 / 64 handlers only. The position search then does not see the handlers behind that index and the new
+    handler lands in front of them. (Evaluation by cases over short lists cannot see this; the width is read from the type.)"""
+    roots = [f for f in F.fns.values() if f.cls == SP and f.body is not None and strip_tmpl(f.name).split("::")[-1] in ("insertBetweenNearLeft", "insertBetweenNearRight", "clear", "appendAttrHandler", "appendFilter", "setFormatter", "appendSink", "appendPipeline")]
+    reach = F.reachable_from(roots, virtual=False) if roots else set()
+    WIDTH = {"quint8": 8, "unsigned char": 8, "quint16": 16, "unsigned short": 16, "quint32": 32, "unsigned int": 32, "uint": 32, "int": 32, "qint32": 32, "quint64": 64, "unsigned long": 64, "unsigned long long": 64,
+             "qulonglong": 64, "qint64": 64, "long": 64, "long long": 64, "size_t": 64}
+    for fid in sorted(reach):
+        f = F.fns.get(fid)
+        if f is None or f.body is None or not in_lib(f.file):
+            continue
+        for loop in find_loops(f):
+            rng = loop.get("range") if loop.get("k") == "rangefor" else None
+            over_list = isinstance(rng, dict) and any(is_this_field(x, "QtLogger::Pipeline::m_handlers") or is_call(x, "QtLogger::Pipeline::handlers") for x in walk(rng))
+            if not over_list and loop.get("k") in ("for", "while"):
+                over_list = isinstance(loop.get("cond"), dict) and any((is_call(x, ("size", "count", "length")) or is_call(x, ("end", "cend", "constEnd"))) and
+                                                                        any(is_this_field(y, "QtLogger::Pipeline::m_handlers") or is_call(y, "QtLogger::Pipeline::handlers") for y in walk(x)) for x in walk(loop["cond"]))
+            if not over_list:
+                continue
+            body = loop.get("body")
+            for n in (walk(body) if isinstance(body, dict) else ()):
+                if n.get("k") == "binop" and n.get("op") in ("<<=", "<<") and isinstance(n.get("lhs"), dict):
+                    t = (skip_copies(n["lhs"]).get("type") or n.get("type") or "").replace("const ", "").strip()
+                    w = WIDTH.get(t)
+                    tgt = skip_copies(n["lhs"])
+                    if w is None or tgt.get("k") not in ("ref", "int", "cast"):
+                        continue
+                    ck.ob("C17-O1", sitestr(f, n), False, "%s builds a %d-bit mask with one bit per handler (%s in a loop over the handler list): handlers at index %d and beyond have no bit, the position search does not see them "
+                          "and the typed insertion puts the new handler in front of them" % (strip_tmpl(f.name).replace("QtLogger::", ""), w, describe(n)[:30], w), key="position-mask|%s" % strip_tmpl(f.name).split("::")[-1])
+                    break
